@@ -11,9 +11,16 @@
     E482, the body contains, in textual order, a `goto l`, the declaration of the used variable, the
     label `l:` (with no other `l:` between that goto and that label) and the use — the jump skips the
     declaration and the use follows its target (history invariant `TInv`, `step_inv`).
+  * Scope/VarsDyn.lean, VarsSound.lean, VarsAccept.lean — what acceptance means for executions:
+    `accepted_runs_initialised`: a function on which the variable scoper, the label scoper and the placement
+    analyzer raise nothing never reaches, in any run (any outcomes of its conditions, any number of loop rounds),
+    a statement that mentions a variable whose declaration has not been executed in the current activation of
+    its block (`sound`: the state of the one static pass at a program point is `Good` for every run that is at
+    that point; `SkipInv` for the statements a jump goes over).
 -/
 import PenneModel.Scope.VarsSkip
 import PenneModel.Scope.VarsTrace
+import PenneModel.Scope.VarsAccept
 
 namespace Vars
 
@@ -23,6 +30,27 @@ example : 482 ∈ goFunction [] [] (.cons (.goto 1) (.cons (.decl 5 []) (.cons (
 
 /-- and a body without the pattern is not rejected on these grounds -/
 example : 482 ∉ goFunction [] [] (.cons (.decl 5 []) (.cons (.goto 1) (.cons (.label 1) (.cons (.use [5]) .nil)))) := by
+  decide
+
+
+/-- the premises of `accepted_runs_initialised` are satisfiable by a body with a conditional forward jump over a
+    declaration that is not used afterwards, a looped block left by a jump, and uses after both labels:
+    `var 1; if 1 goto 9; var 2 = 1; use 2; 9: use 1; { var 3 = 1; if 3 goto 8; use 3; loop } 8: use 1` -/
+def soundExample : Stmts :=
+  .cons (.decl 1 []) (.cons (.ifThen [1] (.goto 9)) (.cons (.decl 2 [1]) (.cons (.use [2]) (.cons (.label 9) (.cons (.use [1])
+  (.cons (.block (.cons (.decl 3 [1]) (.cons (.ifThen [3] (.goto 8)) (.cons (.use [3]) (.cons .loop .nil)))))
+  (.cons (.label 8) (.cons (.use [1, 4]) .nil))))))))
+
+example : goFunction [] [4] soundExample = [] ∧ Labels.goBody soundExample = [] ∧ Place.chkBody soundExample = [] := by
+  decide
+
+/-- and the conclusion is about real runs: this one goes round the loop twice and leaves it by the jump -/
+example : Dyn.execFunction 40 [] [4] soundExample [false, false, false, true] = some (.ok [1, 2] [] .next) := by
+  decide
+
+/-- using variable 2 after the label instead is rejected (E482), and the run that jumps is indeed bad -/
+example : goFunction [] [4] (.cons (.decl 1 []) (.cons (.ifThen [1] (.goto 9)) (.cons (.decl 2 [1]) (.cons (.label 9) (.cons (.use [2]) .nil))))) = [482]
+    ∧ Dyn.execFunction 40 [] [4] (.cons (.decl 1 []) (.cons (.ifThen [1] (.goto 9)) (.cons (.decl 2 [1]) (.cons (.label 9) (.cons (.use [2]) .nil))))) [true] = some .bad := by
   decide
 
 end Vars
